@@ -23,6 +23,7 @@ import (
 	"verif/harness"
 	"verif/simpackages"
 	"verif/simrt"
+	"verif/simtime"
 )
 
 type TrPlan struct {
@@ -911,5 +912,7 @@ func keysOf(m map[string]string) []string {
 }
 
 func main() {
+	simtime.Jitter = true
+	os.Setenv("VERIF_TIME_JITTER", "1") // the instrumented cmd/goose child processes too
 	harness.Main(map[string]harness.Check{"C06": c06{}})
 }
